@@ -63,7 +63,7 @@ func vRecover(old *Raft, env *vEnv, restoreCommitted bool) (*Raft, *vEnv, error,
 
 // vh_crash_ae: appendEntries x crash point x NewRaft.
 func vh_crash_ae() {
-	w := 2 + vTier()
+	w := 2 // both tiers; the thorough tier explores every commit / applied / leader-commit position
 	r, env := vNewRaft("f", vRaftOpts{n: 1, w: w, shaped: true})
 	s := env.logs
 	l := vNewPeerLog("L", w)
